@@ -389,6 +389,36 @@ pub fn sweep_streams(rng: &mut Rng, bases: usize, window: usize) -> Vec<(String,
             }
         }
     }
+    // window boundaries: a phrase repeated at a distance of exactly the search limit of a small
+    // window (2^w - 262) and one or two bytes to either side, compressed with that window
+    for w in 9..=12i32 {
+        if bases == 0 || (bases < 4 && w != 9 + (bases as i32 % 4)) {
+            continue;
+        }
+        let limit = (1usize << w) - 262;
+        for delta in [-2i64, -1, 0, 1, 2] {
+            let d = (limit as i64 + delta) as usize;
+            let phrase: Vec<u8> = (0..12).map(|i| b'A' + ((i * 5 + w as usize) % 26) as u8).collect();
+            let mut text: Vec<u8> = Vec::new();
+            // some nearer repeats first so that shorter distances are in use
+            for k in 0..40 {
+                text.extend_from_slice(format!("<{}>", k * 37 % 101).as_bytes());
+            }
+            let p0 = text.len();
+            text.extend_from_slice(&phrase);
+            let mut k = 0u32;
+            while text.len() < p0 + d {
+                text.push(b'a' + ((k * 7 + k / 26 * 3 + k / 676) % 26) as u8);
+                k += 1;
+            }
+            text.truncate(p0 + d);
+            text.extend_from_slice(&phrase);
+            text.extend_from_slice(b"<end>");
+            for level in [1, 6] {
+                v.push((format!("window/zlib:l{}:w{}/d{}", level, w, d), zlib_raw(&text, level, 0, w, 8)));
+            }
+        }
+    }
     v
 }
 
